@@ -8,7 +8,11 @@ pid, tier = sys.argv[1], (sys.argv[2] if len(sys.argv) > 2 else "quick")
 kf_path = os.path.join(root, "known_findings.json")
 kf = json.load(open(kf_path))
 sigs = set()
-cfgs = {"C08": ["seq", "conc"], "C14": ["seq", "conc"], "C25": ["seq", "persist"], "C26": ["persist"]}.get(pid, ["conc"] if pid in ("C16","C17","C18","C19","C20","C21","C24") else ["seq"])
+cfgs = {"C08": ["seq", "conc"], "C14": ["seq", "conc"], "C22": ["seq", "conc"], "C23": ["mem", "memconc"], "C25": ["seq", "persist"], "C26": ["persist"]}.get(pid, ["conc"] if pid in ("C16","C17","C18","C19","C20","C21","C24") else ["seq"])
+if subprocess.run([os.path.join(root, "check"), "build"] + cfgs).returncode != 0:
+    sys.exit("build failed")
+if subprocess.run(["git", "-C", "/repo", "status", "--short"], capture_output=True, text=True).stdout.strip():
+    sys.exit("/repo is not clean: known findings are collected on the unchanged tree only")
 for cfg in cfgs:
     with tempfile.NamedTemporaryFile() as tf:
         env = dict(os.environ, MC_SIG_DUMP=tf.name, VERIF_ROOT=root, MC_EVIDENCE_SUFFIX="collect")
